@@ -445,4 +445,17 @@ def leaveGroupWire (apiVersion : Int) (memberID : String) (members : List String
   let id := if KV.Gen.Routing.leaveGroupCopiesFirstMember apiVersion members.length then members.headD "" else memberID
   if apiVersion < 3 then (id, []) else ("", members)
 
+/-! ## Split: what the parts carry of the original request -/
+
+/-- does every sub-request `Split` of package `pkg` builds set the request's field `f`? (regenerated table) -/
+def splitCarries (pkg f : String) : Bool :=
+  match KV.Gen.Routing.splitSubrequests.find? (·.1 == pkg) with
+  | some (_, _, subs) => subs.all fun s => s.any (·.1 == f)
+  | none => true
+
+/-- value of a boolean option of the caller's request as it arrives at a broker at `apiVersion`, when the caller set it:
+carried by the part (Split) and present on the wire from version `since` on -/
+def optionArrives (pkg option : String) (since apiVersion : Int) : Bool :=
+  splitCarries pkg option && decide (since ≤ apiVersion)
+
 end KV.Routing
